@@ -172,30 +172,128 @@ Qed.
 Lemma is_correct_lt (W c : Z) : Some (c_lt c W) = Some true -> c < W.
 Proof. unfold c_lt. intros [= E]. now apply Z.ltb_lt. Qed.
 
-Ltac ns_spec_tac cutspec :=
-  constructor;
-  [ reflexivity
-  | intros h Hv; apply Z.mod_pos_bound; reflexivity
-  | intros h1 h2 Hv1 Hv2 E; ns_basic;
-    first [ eapply (mod_inj_range _ h1 h2 0); [| | | exact E]; lia
-          | eapply (mod_inj_range _ h1 h2 (-32768)); [| | | exact E]; lia
-          | eapply (mod_inj_range _ h1 h2 (-2147483648)); [| | | exact E]; lia
-          | eapply (mod_inj_range _ h1 h2 (-9223372036854775808)); [| | | exact E]; lia ]
-  | intros h1 h2 _ _; apply Z.eqb_eq
-  | intros c Hc; exact Hc
-  | intros h Hv; split; [split; [reflexivity | simpl; lia] | reflexivity]
-  | intros h s Hv [Hn Hs] Hlt; simpl in *;
-    assert (Ec : cast u32 (snd (fst (s, s)) ) = snd (fst (s, s))) by reflexivity; clear Ec;
-    unfold cast; rewrite wrap_unsigned by reflexivity; simpl ibits;
-    rewrite Z.mod_small by lia; repeat split; auto; lia
-  | intros h s [Hn Hs]; exact Hs
-  | intros h s Hv [Hn Hs]; reflexivity
-  | intros h s Hv [Hn Hs]; reflexivity
-  | intros h s c Hv [Hn Hs] Hok Hc Hsc; destruct s as [num sh]; simpl in *; subst num;
-    apply is_correct_lt in Hok; change (umul u64 _ 8) with 16 in Hok || change (umul u64 _ 8) with 32 in Hok || change (umul u64 _ 8) with 64 in Hok;
-    eexists; split; [apply cutspec; lia | split; [split; [reflexivity | simpl; lia] | reflexivity]] ].
-
 Lemma ns_u64_spec : splitter_spec ns_u64_splitter 64 (in_range u64) (fun h => h mod 2 ^ 64)
   (fun c => G.ns_u64_is_correct c = Some true)
   (fun h s => G.ns_u64_number_ s = h /\ 0 <= G.ns_u64_shift_ s <= 64) G.ns_u64_shift_.
-Proof. ns_spec_tac ns_u64_cut_spec. Qed.
+Proof.
+  constructor.
+  - reflexivity.
+  - intros h Hv. apply Z.mod_pos_bound. reflexivity.
+  - intros h1 h2 Hv1 Hv2 E. ns_basic. eapply (mod_inj_range _ h1 h2 0); [| | | exact E]; lia.
+  - intros h1 h2 _ _. apply Z.eqb_eq.
+  - intros c Hc. exact Hc.
+  - intros h Hv. split; [split; [reflexivity | simpl; lia] | reflexivity].
+  - intros h s Hv [Hn Hs] Hlt. cbn [sp_init_at ns_u64_splitter G.ns_u64_number_ G.ns_u64_shift_].
+    rewrite (cast_unsigned u32) by reflexivity. simpl ibits. rewrite Z.mod_small by lia. auto.
+  - intros h s [Hn Hs]. exact Hs.
+  - intros h s Hv [Hn Hs]. reflexivity.
+  - intros h s Hv [Hn Hs]. reflexivity.
+  - intros h s c Hv [Hn Hs] Hok Hc Hsc. destruct s as [num sh]. cbn [G.ns_u64_number_ G.ns_u64_shift_] in *. subst num.
+    apply is_correct_lt in Hok. change (umul u64 8 8) with 64 in Hok.
+    eexists. split; [apply ns_u64_cut_spec; lia|]. split; [split; [reflexivity | simpl; lia] | reflexivity].
+Qed.
+
+Lemma ns_i64_spec : splitter_spec ns_i64_splitter 64 (in_range i64) (fun h => h mod 2 ^ 64)
+  (fun c => G.ns_i64_is_correct c = Some true)
+  (fun h s => G.ns_i64_number_ s = h /\ 0 <= G.ns_i64_shift_ s <= 64) G.ns_i64_shift_.
+Proof.
+  constructor.
+  - reflexivity.
+  - intros h Hv. apply Z.mod_pos_bound. reflexivity.
+  - intros h1 h2 Hv1 Hv2 E. ns_basic. eapply (mod_inj_range _ h1 h2 (-9223372036854775808)); [| | | exact E]; lia.
+  - intros h1 h2 _ _. apply Z.eqb_eq.
+  - intros c Hc. exact Hc.
+  - intros h Hv. split; [split; [reflexivity | simpl; lia] | reflexivity].
+  - intros h s Hv [Hn Hs] Hlt. cbn [sp_init_at ns_i64_splitter G.ns_i64_number_ G.ns_i64_shift_].
+    rewrite (cast_unsigned u32) by reflexivity. simpl ibits. rewrite Z.mod_small by lia. auto.
+  - intros h s [Hn Hs]. exact Hs.
+  - intros h s Hv [Hn Hs]. reflexivity.
+  - intros h s Hv [Hn Hs]. reflexivity.
+  - intros h s c Hv [Hn Hs] Hok Hc Hsc. destruct s as [num sh]. cbn [G.ns_i64_number_ G.ns_i64_shift_] in *. subst num.
+    apply is_correct_lt in Hok. change (umul u64 8 8) with 64 in Hok.
+    eexists. split; [apply ns_i64_cut_spec; lia|]. split; [split; [reflexivity | simpl; lia] | reflexivity].
+Qed.
+
+Lemma ns_u32_spec : splitter_spec ns_u32_splitter 32 (in_range u32) (fun h => h mod 2 ^ 32)
+  (fun c => G.ns_u32_is_correct c = Some true)
+  (fun h s => G.ns_u32_number_ s = h /\ 0 <= G.ns_u32_shift_ s <= 32) G.ns_u32_shift_.
+Proof.
+  constructor.
+  - reflexivity.
+  - intros h Hv. apply Z.mod_pos_bound. reflexivity.
+  - intros h1 h2 Hv1 Hv2 E. ns_basic. eapply (mod_inj_range _ h1 h2 0); [| | | exact E]; lia.
+  - intros h1 h2 _ _. apply Z.eqb_eq.
+  - intros c Hc. exact Hc.
+  - intros h Hv. split; [split; [reflexivity | simpl; lia] | reflexivity].
+  - intros h s Hv [Hn Hs] Hlt. cbn [sp_init_at ns_u32_splitter G.ns_u32_number_ G.ns_u32_shift_].
+    rewrite (cast_unsigned u32) by reflexivity. simpl ibits. rewrite Z.mod_small by lia. auto.
+  - intros h s [Hn Hs]. exact Hs.
+  - intros h s Hv [Hn Hs]. reflexivity.
+  - intros h s Hv [Hn Hs]. reflexivity.
+  - intros h s c Hv [Hn Hs] Hok Hc Hsc. destruct s as [num sh]. cbn [G.ns_u32_number_ G.ns_u32_shift_] in *. subst num.
+    apply is_correct_lt in Hok. change (umul u64 4 8) with 32 in Hok.
+    eexists. split; [apply ns_u32_cut_spec; lia|]. split; [split; [reflexivity | simpl; lia] | reflexivity].
+Qed.
+
+Lemma ns_i32_spec : splitter_spec ns_i32_splitter 32 (in_range i32) (fun h => h mod 2 ^ 32)
+  (fun c => G.ns_i32_is_correct c = Some true)
+  (fun h s => G.ns_i32_number_ s = h /\ 0 <= G.ns_i32_shift_ s <= 32) G.ns_i32_shift_.
+Proof.
+  constructor.
+  - reflexivity.
+  - intros h Hv. apply Z.mod_pos_bound. reflexivity.
+  - intros h1 h2 Hv1 Hv2 E. ns_basic. eapply (mod_inj_range _ h1 h2 (-2147483648)); [| | | exact E]; lia.
+  - intros h1 h2 _ _. apply Z.eqb_eq.
+  - intros c Hc. exact Hc.
+  - intros h Hv. split; [split; [reflexivity | simpl; lia] | reflexivity].
+  - intros h s Hv [Hn Hs] Hlt. cbn [sp_init_at ns_i32_splitter G.ns_i32_number_ G.ns_i32_shift_].
+    rewrite (cast_unsigned u32) by reflexivity. simpl ibits. rewrite Z.mod_small by lia. auto.
+  - intros h s [Hn Hs]. exact Hs.
+  - intros h s Hv [Hn Hs]. reflexivity.
+  - intros h s Hv [Hn Hs]. reflexivity.
+  - intros h s c Hv [Hn Hs] Hok Hc Hsc. destruct s as [num sh]. cbn [G.ns_i32_number_ G.ns_i32_shift_] in *. subst num.
+    apply is_correct_lt in Hok. change (umul u64 4 8) with 32 in Hok.
+    eexists. split; [apply ns_i32_cut_spec; lia|]. split; [split; [reflexivity | simpl; lia] | reflexivity].
+Qed.
+
+Lemma ns_u16_spec : splitter_spec ns_u16_splitter 16 (in_range u16) (fun h => h mod 2 ^ 16)
+  (fun c => G.ns_u16_is_correct c = Some true)
+  (fun h s => G.ns_u16_number_ s = h /\ 0 <= G.ns_u16_shift_ s <= 16) G.ns_u16_shift_.
+Proof.
+  constructor.
+  - reflexivity.
+  - intros h Hv. apply Z.mod_pos_bound. reflexivity.
+  - intros h1 h2 Hv1 Hv2 E. ns_basic. eapply (mod_inj_range _ h1 h2 0); [| | | exact E]; lia.
+  - intros h1 h2 _ _. apply Z.eqb_eq.
+  - intros c Hc. exact Hc.
+  - intros h Hv. split; [split; [reflexivity | simpl; lia] | reflexivity].
+  - intros h s Hv [Hn Hs] Hlt. cbn [sp_init_at ns_u16_splitter G.ns_u16_number_ G.ns_u16_shift_].
+    rewrite (cast_unsigned u32) by reflexivity. simpl ibits. rewrite Z.mod_small by lia. auto.
+  - intros h s [Hn Hs]. exact Hs.
+  - intros h s Hv [Hn Hs]. reflexivity.
+  - intros h s Hv [Hn Hs]. reflexivity.
+  - intros h s c Hv [Hn Hs] Hok Hc Hsc. destruct s as [num sh]. cbn [G.ns_u16_number_ G.ns_u16_shift_] in *. subst num.
+    apply is_correct_lt in Hok. change (umul u64 2 8) with 16 in Hok.
+    eexists. split; [apply ns_u16_cut_spec; lia|]. split; [split; [reflexivity | simpl; lia] | reflexivity].
+Qed.
+
+Lemma ns_i16_spec : splitter_spec ns_i16_splitter 16 (in_range i16) (fun h => h mod 2 ^ 16)
+  (fun c => G.ns_i16_is_correct c = Some true)
+  (fun h s => G.ns_i16_number_ s = h /\ 0 <= G.ns_i16_shift_ s <= 16) G.ns_i16_shift_.
+Proof.
+  constructor.
+  - reflexivity.
+  - intros h Hv. apply Z.mod_pos_bound. reflexivity.
+  - intros h1 h2 Hv1 Hv2 E. ns_basic. eapply (mod_inj_range _ h1 h2 (-32768)); [| | | exact E]; lia.
+  - intros h1 h2 _ _. apply Z.eqb_eq.
+  - intros c Hc. exact Hc.
+  - intros h Hv. split; [split; [reflexivity | simpl; lia] | reflexivity].
+  - intros h s Hv [Hn Hs] Hlt. cbn [sp_init_at ns_i16_splitter G.ns_i16_number_ G.ns_i16_shift_].
+    rewrite (cast_unsigned u32) by reflexivity. simpl ibits. rewrite Z.mod_small by lia. auto.
+  - intros h s [Hn Hs]. exact Hs.
+  - intros h s Hv [Hn Hs]. reflexivity.
+  - intros h s Hv [Hn Hs]. reflexivity.
+  - intros h s c Hv [Hn Hs] Hok Hc Hsc. destruct s as [num sh]. cbn [G.ns_i16_number_ G.ns_i16_shift_] in *. subst num.
+    apply is_correct_lt in Hok. change (umul u64 2 8) with 16 in Hok.
+    eexists. split; [apply ns_i16_cut_spec; lia|]. split; [split; [reflexivity | simpl; lia] | reflexivity].
+Qed.
